@@ -18,9 +18,13 @@ class BcashSolutionChecker(BitcoinSolutionChecker):
         optionally bitwise or'ed with SIGHASH_ANYONECANPAY
         """
 
+        return self._signature_for_hash_type_segwit(
+            tx_out_script, unsigned_txs_out_idx, hash_type
+        )
+
+    def _signature_for_hash_type_segwit(self, script: bytes, tx_in_idx: int, hash_type: int) -> int:
+        # every digest goes through here, the witness-program path directly
         if hash_type & SIGHASH_FORKID != SIGHASH_FORKID:
             raise self.ScriptError()
 
-        return self._signature_for_hash_type_segwit(  # type: ignore[no-any-return]
-            tx_out_script, unsigned_txs_out_idx, hash_type
-        )
+        return super()._signature_for_hash_type_segwit(script, tx_in_idx, hash_type)  # type: ignore[no-any-return]
